@@ -8,5 +8,6 @@ CONSTANTS
   GapFix = FALSE
   CertRounds = {1, 2}
   Direct = FALSE
+  MidCrash = FALSE
   Timeouts = FALSE
 PROPERTY HighestStrict
